@@ -35,7 +35,7 @@ htfstub.quiet_logging()
 PROPERTY = 'C04'
 LEVEL = 'model_checking'
 EXPLANATION = ('bounded model checking of the sequentialised real executor/abort code on a virtual clock: every abort moment '
-               '(statement granularity), one extra preemption and the body duration classes are symbolic; CrossHair/z3 exhausts the paths')
+               '(statement granularity), one extra preemption and the body duration classes are symbolic; CrossHair/z3 exhausts the paths. The schedule/duration variables are pinned by bisection (O(log n) solver decisions per path) and the pinned schedule then runs natively on the sequentialised code: z3 partitions and exhausts the domain under the preconditions, it does not reason symbolically inside a path.')
 _NULL = logging.getLogger('verif.null')
 _NULL.addHandler(logging.NullHandler())
 _NULL.propagate = False
@@ -156,7 +156,7 @@ def FUNCTIONS():
 
 
 BOUNDS = {'programs': 'P0: one main phase; P1: PhaseGroup(setup [s], main [m1, m2], teardown [t1, t2]) followed by phase `after`; P2: PhaseGroup(main [m1], teardown [t1, PhaseGroup(setup [t2], main [t3], teardown [t4])])',
-          'aborts': 'the first abort starts at a symbolic global step 0..330 (runs are <= ~310 steps: every statement of the run is a candidate, plus abort after the run finished); optional second abort 0..120 steps later',
+          'aborts': 'the first abort starts at a symbolic global step 0..330 (runs are <= ~310 steps: every statement of the run is a candidate, plus abort after the run finished); optional second abort 0..60 (quick) / 0..90 (thorough) steps later',
           'schedule': 'one additional preemption within 25 steps after the abort start (executor <-> aborter); otherwise a thread runs until it blocks',
           'bodies': 'each of the main / teardown phases: prompt, long-running but killable, or ignoring the first kill (abandoned after cancel_timeout_s)'}
 STUBS = ['cooperative primitives + virtual time (vlib/seqz)', 'async_raise delivers at the next step of the target coroutine',
@@ -446,11 +446,11 @@ def _double(pa, gap, dm, dt):
 
 
 @cond(timeout=1500, split={'di': (3, 4), 'pb': range(6), 'gmax': (60,)},
-      split_thorough={'di': range(len(_DT)), 'pb': range(6), 'gmax': (120,)}, timeout_thorough=3000)
+      split_thorough={'di': (0, 3, 4, 5, 7), 'pb': range(6), 'gmax': (90,)}, timeout_thorough=3000)
 def c_double_abort(pb: int, pa: int, gap: int, gmax: int, di: int) -> bool:
   """
   pre: 0 <= pb <= 5 and 0 <= pa < _PA_BLOCK and 0 <= di <= 8
-  pre: 0 <= gap <= gmax and gmax in (60, 120)
+  pre: 0 <= gap <= gmax and gmax in (60, 90)
   post: _
   """
   pb, pa, gap, di = pin(pb, 0, 5), pin(pa, 0, _PA_BLOCK - 1), pin(gap, 0, 120), pin(di, 0, 8)
